@@ -250,7 +250,7 @@ var ethDefectGroups = [][]string{
 	{"timeout"},
 	{"ext-dup", "ext-dynfee", "ext-eth+dynfee", "ext-dynfee+eth", "ext-unknown", "ext-eth+unknown"},
 	{"noncrit-eth", "noncrit-dynfee", "noncrit-unknown"},
-	{"fee+1", "fee-1", "feex2", "fee-empty", "fee-denom", "fee-two"},
+	{"fee+1", "fee-1", "feex2", "fee-empty", "fee-denom", "fee-two", "fee-nil"},
 	{"gas+1", "gas-1", "gasx2", "gas+fee-rescaled"},
 }
 
@@ -314,6 +314,8 @@ func (g *genCtx) applyEthDefect(rt *rawTx, tx *ethtypes.Transaction, d string) {
 		rt.Fee = sdk.Coins{sdk.NewCoin(vh.Denom, fee.MulRaw(2))}
 	case "fee-empty":
 		rt.Fee = sdk.Coins{}
+	case "fee-nil":
+		rt.NoAuthFee = true
 	case "fee-denom":
 		rt.Fee = sdk.Coins{sdk.NewCoin(vh.SecondDenom, fee)}
 	case "fee-two":
@@ -546,7 +548,7 @@ func (g *genCtx) cosmosOK() *rawTx {
 			list = append(list, g.send(from).M)
 			t.feat("in:two")
 		}
-		t.Depth = 1 + r.Intn(6)
+		t.Depth = vh.Pick(r, []int{1, 1, 1, 2, 2, 2, 3, 4, 5, 6})
 		ms := []smsg{wrapExec(grantee, list, t.Depth)}
 		if r.Chance(1, 6) {
 			ms = append(ms, g.send(grantee))
